@@ -29,10 +29,13 @@ pub struct StressCase {
     /// all writers write ONE key (multi-writer): only "no failure, complete payloads" is judged
     #[serde(default)]
     pub hot: bool,
+    #[serde(default)]
+    pub asyn: bool,
 }
 
 fn payload(key: u64, seq: u64) -> Vec<u8> {
-    let len = 16 + ((seq * 37 + key * 11) % 5000) as usize + if seq % 7 == 0 { 9000 } else { 0 };
+    // mostly small (fast overwrites -> many races), sometimes larger than the I/O buffers
+    let len = 16 + ((seq * 37 + key * 11) % 200) as usize + if seq % 13 == 0 { 5000 } else { 0 } + if seq % 101 == 0 { 9000 } else { 0 };
     let mut v = Vec::with_capacity(len);
     v.extend_from_slice(&seq.to_le_bytes());
     v.extend_from_slice(&key.to_le_bytes());
@@ -58,8 +61,8 @@ struct ReadRec {
 /// Single-writer-per-key atomic-register check.
 pub fn run_register(case: &StressCase) -> R<CaseMeta> {
     let scratch = Scratch::new("stress");
-    let cfg = crate::seq::Cfg { kt: "U64".into(), n: case.n, asyn: false, scan: false, verify: false };
-    let cas = Cas::<u64>::open(scratch.db(), cfg.config(false)).map_err(|e| Fail::new("open-err", format!("{e:?}")))?;
+    let cfg = crate::seq::Cfg { kt: "U64".into(), n: case.n, asyn: case.asyn, scan: false, verify: false };
+    let cas = Cas::<u64>::open(scratch.db(), cfg.config(case.asyn)).map_err(|e| Fail::new("open-err", format!("{e:?}")))?;
     let nw = case.writers.clamp(1, 8) as u64;
     let nr = case.readers.clamp(1, 16) as usize;
     let t0 = Instant::now();
